@@ -10,6 +10,7 @@
 import ast
 
 from sa import dataflow as df
+from sa.krylov import nospace
 from sa.own import CONSTRUCTOR_METHODS, MUTATING_METHODS, Own, flat, show
 
 EXCLUDED_MODULES = {"cola.utils.utils_for_tests": "test helpers, not library code"}
@@ -343,6 +344,37 @@ def self_write_verdict(idx, f, attr, in_ctor, s):
         return ("PROVED", f"helper {top.name} is only called from constructors", "")
     if not attr:
         return ("UNDECIDED", "whole-object write", "")
+    if "LinearOperator" not in [c.name for c in idx.mro(ci)] and ci.name.startswith("_"):
+        # a private helper class (the object form of a closure): the write goes into whatever its constructor was handed; that is a
+        # defect only if some construction site passes an object of the caller of the enclosing public function (a parameter) or a
+        # module-level object -- state the routine created itself is its own
+        init = ci.methods.get("__init__")
+        pname = None
+        if init is not None:
+            for st in df.body_nodes(init.node):
+                if isinstance(st, ast.Assign) and len(st.targets) == 1 and nospace(st.targets[0]) == f"self.{attr}" and isinstance(st.value, ast.Name) and st.value.id in init.params:
+                    pname = st.value.id
+        sites = [(g, c) for g in idx.funcs.values() for c in df.calls(g.node, into_nested=False) if isinstance(c.func, ast.Name) and c.func.id == ci.name and g.module is ci.module]
+        if pname is not None and sites:
+            bad = []
+            for g, c in sites:
+                b = df.bind_call(c, init.params, skip_first=True)
+                e = b.get(pname)
+                if e is None:
+                    continue
+                root = e
+                while isinstance(root, (ast.Attribute, ast.Subscript)):
+                    root = root.value
+                scope, is_param = g, False
+                while scope is not None and isinstance(root, ast.Name):
+                    if root.id in scope.params and not df.assignments(scope.node, into_nested=False).get(root.id):
+                        is_param = True
+                    scope = scope.parent
+                r_ = idx.resolve_name(g.module, root.id, g) if isinstance(root, ast.Name) else None
+                if is_param or (r_ is not None and r_.kind == "value"):
+                    bad.append((g, c))
+            if not bad:
+                return ("PROVED", f"`self.{attr}` of the private helper class {ci.name} is state its {len(sites)} construction site(s) created themselves", "")
     if "LinearOperator" not in [c.name for c in idx.mro(ci)]:
         return ("REFUTED", f"{ci.name}.{top.name} writes in place into `self.{attr}`, a value the caller handed to the {ci.name} object", f"self.{attr}")
     reads = repr_reads(idx, ci)
